@@ -10,7 +10,7 @@ H.append({"name":"H_sign","tiers":Q,"scale":"b2","bounds":"B=2; two files, sizes
 H.append({"name":"H_sign","tiers":Q,"scale":"b2","bounds":"B=2; one file in {0,1,3,4}; every short-read slicing of the source pool, for each producer","param_sets":[{"n0":a,"slicing":s} for a in (0,1,3,4) for s in (1,2)]})
 H.append({"name":"H_sign","tiers":T,"scale":"b3","bounds":"B=3; three files with sizes in {0,1,B-1,B,B+1,2B+1}","max_seconds":900,"param_sets":[{"n0":a,"n1":b,"n2":c,"slicing":0} for a in (0,2,3,4,7) for b in (0,1,3,7) for c in (0,4)]})
 H.append({"name":"H_sign","tiers":T,"scale":"b4","bounds":"B=4; one file of 3B bytes","max_seconds":1500,"param_sets":[{"n0":12,"slicing":0}]})
-H.append({"name":"H_sign","tiers":T,"scale":"b4","bounds":"B=4; one file 0..3B with short-read slicing","max_seconds":900,"param_sets":[{"n0":a,"slicing":s} for a in range(0,9) for s in (1,2)]})
+H.append({"name":"H_sign","tiers":T,"scale":"b4","bounds":"B=4; one file 0..2B-1 with short-read slicing","max_seconds":900,"param_sets":[{"n0":a,"slicing":s} for a in range(0,8) for s in (1,2)]})
 H.append({"name":"H_sign","tiers":Q,"scale":"b2","bounds":"signature streams written through the model codecs (both producers), two files",
   "param_sets":[{"n0":a,"n1":b,"slicing":0,"comp":c} for a in (0,3,5) for b in (0,3) for c in (1,2)]})
 H.append({"name":"H_sign","tiers":Q,"max_steps":2000000000,"bounds":"REGIME R (no constant scaled): one or two files of 64 KiB-1, 64 KiB, 64 KiB+1, 128 KiB, 128 KiB+1 and 3 bytes, concrete pseudo-random with symbolic first and last byte; both producers, read-back, validation",
